@@ -25,7 +25,7 @@ def build(tier, seed):
             obs.append(Ob(
                 oid="O1.one_preemption.%s.k%d_%d" % (name, lo, hi),
                 sig=("u0: bool, u1: bool, u2: bool, bz: bool, " if sym_a else "") + "b0: bool, b1: bool, b2: bool, k: int, op: int",
-                pre=["%d <= k <= %d" % (lo, hi), "0 <= op <= 1"], header=HDRC, timeout=T,
+                pre=["%d <= k <= %d" % (lo, hi), "0 <= op <= 2"], header=HDRC, timeout=T,
                 body=("" if sym_a else "\n    u0 = u1 = u2 = True\n    bz = False") + r'''
     def body():
         used = [n for n, u in zip(NAMES, (u0, u1, u2)) if u]
@@ -42,8 +42,8 @@ def build(tier, seed):
                 stubs=STUB_COLOR + ["thread B -> nondeterministic environment: at the chosen call boundary it performs, on a real "
                                     "second thread, what its own encode does to the colour API (start: set context; finish: set then "
                                     "clear) with an arbitrary palette"],
-                bounds="2 threads, ONE preemption before A's k-th call into the colour API, k in [%d,%d] (solver-enumerated), B started "
-                       "or finished, B's palette an arbitrary subset of 3 colours%s, A's palette %s; %s path (an encode of this shape makes 14-20 such "
+                bounds="2 threads, ONE preemption before A's k-th call into the colour API, k in [%d,%d] (solver-enumerated), B started | resolved its "
+                       "colours | ran a complete encode, B's palette an arbitrary subset of 3 colours%s, A's palette %s; %s path (an encode of this shape makes 14-20 such "
                        "calls; larger k are vacuous)" % (
                            lo, hi, " + a foreign one" if sym_a else "", "an arbitrary subset" if sym_a else "all 3 colours", name),
                 what="thread A's result (every colour index it emits and its colour table) equals what it produces alone, for every "
